@@ -750,6 +750,24 @@ func TestVerifC05(t *testing.T) {
 		}
 	}
 	pk.Exhaustive = step == 1
+	// Lines of equal length whose hashes collide (hash is the polynomial ((p1*31+v1)*31+p2)*31+v2):
+	// A = [(s,v1) (s+1,v2)] and B = [(s,v1) (s+2,v2-31)]. A third line F placed between them puts
+	// the value v2-31 exactly where B would look if it reused A's base; the check array must keep
+	// B from being de-duplicated against A.
+	for s := 0; s < 3; s++ {
+		for v1 := 1; v1 <= 3; v1++ {
+			for v2 := 40; v2 <= 42; v2++ {
+				for z := 1; z <= 2; z++ {
+					a := []pair{{s, v1}, {s + 1, v2}}
+					f := []pair{{0, v2 - 31}, {1, z}}
+					b := []pair{{s, v1}, {s + 2, v2 - 31}}
+					checkPack([]line{{a}, {f}, {b}})
+					checkPack([]line{{a}, {f}, {b}, {[]pair{{0, z}}}})
+					checkPack([]line{{f}, {a}, {b}})
+				}
+			}
+		}
+	}
 	for i := 0; i < hCount(4000, 100000); i++ {
 		nl := 1 + r.Intn(8)
 		var in []line
